@@ -62,7 +62,8 @@ def warm():
 def gen_world(t, prop):
     hostile = prop == "C04" or t.chance(1, 5)
     omen = worlds.gen_omen(t) if t.chance(1, 2) else None
-    spec = worlds.gen_syn(t, hostile=hostile, omen=omen, max_pts=600 if prop == "C02" else 1500)
+    menu = worlds.VAR_MENU + ["A10", "D10", "A12", "O10"] if t.chance(1, 4) else None     # two-digit lengths
+    spec = worlds.gen_syn(t, hostile=hostile, omen=omen, max_pts=600 if prop == "C02" else 1500, menu=menu)
     # PRINCE base structures: single-variable structures
     names = [v for v in spec["vars"] if v[0] != "C"]
     pr = worlds._descending_probs(t, "normalised", min(4, len(names)))
